@@ -25,7 +25,8 @@ def fr(p):
     return Fraction(p[0], p[1])
 
 
-def replay_row(row, calc, coll):
+def replay_row(row, calc, coll, array_form=False, coll_jit=None):
+    replay_row.array_issue = None
     _, n, w, kmul, koff, ecc, inc, H, dM, dW, dO, nsig = row
     Ls = sorted({k[0] for k, v in ecc} | {k[0] for k, v in inc} | {2, 3})
     eccd = {l: {p: {} for p in range(l + 1)} for l in Ls}
@@ -49,6 +50,34 @@ def replay_row(row, calc, coll):
     if not love:
         return None, added, 0
     out = coll(1.0, 1.0, 1.0, 1.0, 1.0, M_HOST, S_SUS, love, terms, max(Ls), True)
+    replay_row.array_issue = None
+    if array_form:
+        # array-valued frequencies / Love numbers: the caller's containers must come back untouched, a second call with the same
+        # containers must give the same numbers, and every element must equal the scalar result
+        import numpy as np
+        fwa = np.array([fw, fw])
+        fna = fwa if n == w else np.array([fn, fn])
+        ufa, termsa = calc(fwa, fna, 1.0, 1.0, eccd, incd, True)
+        lovea = {sig: np.full(2, complex(0.3, -float(K(int(round(abs(float(np.asarray(f).ravel()[0])))))))) for sig, f in ufa.items()}
+        keep = {sig: v.copy() for sig, v in lovea.items()}
+        for impl_name, impl in (("py", coll), ("jit", coll_jit)):
+            if impl is None:
+                continue
+            o1 = impl(1.0, 1.0, 1.0, 1.0, 1.0, M_HOST, S_SUS, lovea, termsa, max(Ls), True)
+            changed = [str(sig) for sig in lovea if not np.array_equal(lovea[sig], keep[sig])]
+            o2 = impl(1.0, 1.0, 1.0, 1.0, 1.0, M_HOST, S_SUS, lovea, termsa, max(Ls), True)
+            if changed:
+                replay_row.array_issue = ("inputs_unmodified", "collapse_modes[%s] modified the caller's Love-number arrays for signatures %s" % (impl_name, changed[:3]))
+                for sig in lovea:
+                    lovea[sig] = keep[sig].copy()
+            for k in range(4):
+                a1, a2 = np.asarray(o1[k], dtype=float) * np.ones(2), np.asarray(o2[k], dtype=float) * np.ones(2)
+                sc = float(np.asarray(out[k], dtype=float).ravel()[0])
+                tol = 1e-11 * max(1.0, abs(sc))
+                if replay_row.array_issue is None and float(np.max(np.abs(a1 - a2))) > tol:
+                    replay_row.array_issue = ("repeat_call", "collapse_modes[%s] called twice with the same containers: output %d %r then %r" % (impl_name, k, a1.tolist(), a2.tolist()))
+                if replay_row.array_issue is None and float(np.max(np.abs(a1 - sc))) > tol:
+                    replay_row.array_issue = ("array_vs_scalar", "collapse_modes[%s] array form output %d = %r, scalar form %r" % (impl_name, k, a1.tolist(), sc))
     return out[:4], added, len(uf)
 
 
@@ -83,7 +112,9 @@ def run(tier, seed):
         det = {"n": row[1], "W": row[2], "K(f)=(f*%d+%d)%%3" % (row[3], row[4]): True, "ecc": sorted([list(k) + [v] for k, v in row[5]]),
                "inc": sorted([list(k) + [v] for k, v in row[6]])}
         try:
-            got, added, nsig = replay_row(row, calc, coll)
+            got, added, nsig = replay_row(row, calc, coll, array_form=(len(seen) % 4 == 1), coll_jit=None)
+            if replay_row.array_issue:
+                ck.violation({"clause": replay_row.array_issue[0], "fn": "collapse_modes"}, replay_row.array_issue[1] + " tables=%s" % json.dumps(det)[:300], det)
         except Exception as ex:
             ck.violation({"clause": "exception", "exc": type(ex).__name__}, "calculate_terms/collapse_modes raised %s: %s on %s" % (
                 type(ex).__name__, str(ex)[:100], json.dumps(det)[:300]), det)
